@@ -12,7 +12,7 @@ binding: every emitted descriptor / case is executed on the real kernels built w
 verdict: sanitizer report, surviving poison / NaN in a promised output, or output differing from model / reference
         = VIOLATION (replay file = the descriptor); `--replay` re-runs it on the sanitizer build.
 """
-import os, sys, json, subprocess, time, threading
+import os, sys, json, subprocess, time, threading, re
 import numpy as np
 import common
 from props import c11
@@ -167,11 +167,13 @@ def run_all_tlc(chk, tier):
                     fr.add(tuple(map(tuple, r["fr"])))
             model += [{"src": src, "cfg": extra, "frames": [list(f) for f in frs]} for frs in sorted(fr)]
         elif src == "scorerefine":
+            recs.sort(key=lambda r: json.dumps(r, sort_keys=True))       # (TLC's output order depends on its workers)
             for n, r in enumerate(recs):
                 npk = len(r["peaks"])
                 reps = [1] + ([4096 // npk + 1] if npk and n % 50 == 7 else [])
                 model.append({"src": src, "case": r, "reps": reps})
         elif src == "scoreassign":
+            recs.sort(key=lambda r: json.dumps(r, sort_keys=True))
             for n, r in enumerate(recs):
                 model.append({"src": src, "case": r, "reps": 2049 if n % 97 == 5 else 1})
         counts[name] = len(recs)
@@ -230,22 +232,29 @@ class Replayer(object):
         self.driver_kernels = None
         self.genbad = []
         self.nbatch = 0
+        self.skip = set()
+        self.aborts = {}
+        self.sigs = {}          # failure signature -> count; three replay files per signature, the rest counted
 
     def run(self, cases, flavour, threads=None, tag="", timeout=3000):
         """execute `cases` in child processes; a crash is recorded and the run resumes after the offending case"""
         start = 0
         env = child_env(flavour, threads)
+        self.nbatch += 1
+        d = common.scratch()
+        cpath = os.path.join(d, "c20_cases_%d.jsonl" % self.nbatch)
+        opath = os.path.join(d, "c20_out_%d.json" % self.nbatch)
+        with open(cpath, "w") as f:
+            for c in cases:
+                f.write(json.dumps(c) + "\n")
+        part = cases                    # (indices of the child are indices into `cases`)
         while start < len(cases):
-            part = cases[start:]
-            self.nbatch += 1
-            d = common.scratch()
-            cpath = os.path.join(d, "c20_cases_%d.jsonl" % self.nbatch)
-            opath = os.path.join(d, "c20_out_%d.json" % self.nbatch)
-            with open(cpath, "w") as f:
-                for c in part:
-                    f.write(json.dumps(c) + "\n")
+            for pth in (opath, opath + ".cur", opath + ".log"):
+                if os.path.exists(pth):
+                    os.unlink(pth)
+            env["C20_SKIP"] = ",".join(sorted(self.skip))
             try:
-                p = subprocess.run([common.PY, DRIVER, cpath, opath], env=env, stdout=subprocess.DEVNULL,
+                p = subprocess.run([common.PY, DRIVER, cpath, opath, str(start)], env=env, stdout=subprocess.DEVNULL,
                                    stderr=subprocess.PIPE, text=True, timeout=timeout)
             except subprocess.TimeoutExpired:
                 raise common.MachineryError("driver child (%s %s) timed out after %ds" % (flavour, tag, timeout))
@@ -270,29 +279,44 @@ class Replayer(object):
                 why = (first[0][:220] if first else ("signal %d" % -p.returncode if p.returncode < 0 else "sanitizer exit %d" % p.returncode))
                 bad = part[last]
                 self.stats["sanitizer_aborts"] += 1
-                if not self.known(bad, p.stderr):
-                    self.chk.violation("%s build%s: %s while executing [%s] %s" % (
+                isknown = self.known(bad, p.stderr)
+                if not isknown:
+                    k = bad["d"]["k"] if "d" in bad else bad.get("src")
+                    self.report((flavour, k, re.sub(r"0x[0-9a-f]+|==\d+==|\d+ \* \d+", "", why), frames[0].split(" in ")[-1] if frames else ""),
+                                "%s build%s: %s while executing [%s] %s" % (
                         "sanitizer" if flavour == "asan" else "normal", " threads=%s" % threads if threads else "", why,
                         describe(bad), " | ".join(frames)),
                         {"lines": [bad], "flavour": flavour, "threads": threads, "stderr": p.stderr[-3000:]})
                 # the verdicts of the cases before the crash are in the child's side log
                 for ev in self.read_log(opath + ".log"):
                     if ev["idx"] >= last:
-                        continue
-                    if ev["t"] == "p":
+                        continue        # (events of the aborting case itself: superseded by the abort)
+                    if ev["t"] == "h":
+                        self.module_functions, self.driver_kernels = ev["module_functions"], ev["kernels"]
+                    elif ev["t"] == "c":
+                        if len(ev["names"]) > len(self.checked.get(ev["k"], [])):
+                            self.checked[ev["k"]] = ev["names"]
+                    elif ev["t"] == "p":
                         self.problem(part[ev["idx"]], ev["problems"], flavour, threads)
                     elif ev["t"] == "r":
                         k = part[ev["idx"]]["d"]["k"]
                         self.rejected.setdefault(k, {"n": 0, "why": ev["why"], "example": part[ev["idx"]]["d"]})["n"] += 1
-                self.account(part[:last + 1], flavour, threads, None)
-                start += last + 1
-                if len(self.chk.violations) > 20:
+                self.account([c for c in part[start:last + 1] if self.kname(c) not in self.skip], flavour, threads, None)
+                start = last + 1
+                # a kernel that aborted three times in this run is not called again (its remaining cases are counted)
+                kb = self.kname(bad)
+                if not isknown:
+                    self.aborts[kb] = self.aborts.get(kb, 0) + 1
+                    if self.aborts[kb] >= 3:
+                        self.skip.add(kb)
+                if self.stop():
                     return
                 continue
-            self.account(part, flavour, threads, out)
+            self.account([c for c in part[start:] if self.kname(c) not in self.skip], flavour, threads, out)
+            self.stats["skipped_after_repeated_abort"] = self.stats.get("skipped_after_repeated_abort", 0) + out.get("skipped", 0)
             for pr in out["problems"]:
                 self.problem(part[pr["idx"]], pr["problems"], flavour, threads)
-                if len(self.chk.violations) > 20:
+                if self.stop():
                     return
             for idx, why in out["rejected"]:
                 k = part[idx]["d"]["k"]
@@ -322,6 +346,19 @@ class Replayer(object):
             pass
         return out
 
+    @staticmethod
+    def kname(c):
+        return c["d"]["k"] if "d" in c else c.get("src")
+
+    def report(self, sig, what, obj):
+        n = self.sigs.get(sig, 0)
+        self.sigs[sig] = n + 1
+        if n < 3:
+            self.chk.violation(what, obj)
+
+    def stop(self):
+        return len(self.sigs) > 12 or len(self.chk.violations) > 22
+
     def known(self, bad, text):
         """structural match of a known finding: the entry's class AND the specification's attribution"""
         if bad.get("src", "kc") != "kc":
@@ -344,7 +381,9 @@ class Replayer(object):
     def problem(self, bad, problems, flavour, threads):
         if self.known(bad, "; ".join(problems)):
             return
-        self.chk.violation("%s build%s: [%s] %s" % (
+        k = bad["d"]["k"] if "d" in bad else bad.get("src")
+        first = re.sub(r"^\[\d+ threads\] ", "", problems[0])
+        self.report((flavour, k, re.split(r"[:\[(]", first)[0][:60]), "%s build%s: [%s] %s" % (
             "sanitizer" if flavour == "asan" else "normal", " threads=%s" % threads if threads else "",
             describe(bad), "; ".join(problems[:3])[:600]),
             {"lines": [bad], "flavour": flavour, "threads": threads})
@@ -370,10 +409,10 @@ def thread_subset(desc, tier):
     """descriptors whose loops cross OpenMP chunk / row-block boundaries + a seeded tenth of the rest"""
     rng = np.random.RandomState(common.seed())
     out = []
-    for c in desc:
+    for c in sorted(desc, key=lambda c: json.dumps(c["d"], sort_keys=True)):      # (TLC's output order varies)
         d = c["d"]
         large = d["ns"] * d["nf"] >= 4096 or d["n"] >= 4095
-        if (large and (tier == "quick" or rng.rand() < 0.5)) or rng.rand() < (0.02 if tier == "quick" else 0.05):
+        if (large and rng.rand() < 0.5) or rng.rand() < (0.02 if tier == "quick" else 0.05):
             out.append(c)
     return out
 
@@ -441,12 +480,14 @@ def run(tier, replay=None):
     chk.notes["thread_counts"] = THREADS
     chk.notes["wrapper_rejections"] = rep.rejected
     chk.notes["observations"] = rep.notes
+    chk.notes["failure_signatures"] = dict((" | ".join(str(x) for x in k), v) for k, v in rep.sigs.items())
     chk.notes["outputs_checked"] = rep.checked
     for c in desc[:1] + desc[len(desc) // 2:len(desc) // 2 + 1]:
         chk.sample(c)
     if model:
         chk.sample(model[len(model) // 3])
-    chk.exhaustive = rep.stats["sanitizer_aborts"] == 0
+    chk.exhaustive = rep.stats["sanitizer_aborts"] == 0 and not rep.skip
+    chk.notes["kernels_skipped_after_three_aborts"] = sorted(rep.skip)
     if tier == "thorough":
         selftest()
     return chk.finish()
